@@ -10,17 +10,31 @@
 (***************************************************************************)
 EXTENDS Integers, Sequences, FiniteSets, TLC
 
-CONSTANTS NF,      \* number of files, walked in the order 1..NF
+\* (the @type comments are for Apalache - CliPoolInd.tla; TLC ignores them)
+CONSTANTS
+          \* @type: Int;
+          NF,      \* number of files, walked in the order 1..NF
+          \* @type: Int;
           N,       \* -c N: semaphore capacity
+          \* @type: Bool;
           Conc,    \* BOOLEAN: workers are goroutines (N > 1) or inline calls
+          \* @type: Set(Int);
           Prints   \* set of files whose query result is non-empty (the others print nothing)
 
-VARIABLES next,   \* the file the walker handles next (NF + 1: walk finished)
+VARIABLES
+          \* @type: Int;
+          next,   \* the file the walker handles next (NF + 1: walk finished)
+          \* @type: Str;
           wpc,    \* walker: "acquire" | "add" | "spawn" | "inline" (waiting for an inline worker)
+          \* @type: Str;
           main,   \* "walk" | "wait" (about to call WaitGroup.Wait) | "waiting" | "exit"
+          \* @type: Int;
           sem,    \* tokens taken
+          \* @type: Int;
           wg,     \* WaitGroup counter
+          \* @type: Int -> Str;
           st,     \* per file: "new" | "spawned" | "started" | "printed" | "released" | "done"
+          \* @type: Seq(Int);
           out     \* stdout: the sequence of printed blocks (file numbers)
 
 vars == <<next, wpc, main, sem, wg, st, out>>
@@ -72,8 +86,8 @@ AtMostNRunning == Cardinality({f \in Files : st[f] \in {"spawned", "started", "p
 WaitGroupCounts == wg = Cardinality({f \in Files : st[f] \in {"spawned", "started", "printed", "released"}}) + (IF wpc = "spawn" THEN 1 ELSE 0)
 TokensCount == sem = Cardinality({f \in Files : st[f] \in {"spawned", "started", "printed"}}) + (IF wpc \in {"add", "spawn"} THEN 1 ELSE 0)
 \* the process exits only after every file has been handled and every non-empty block printed
-ExitOnlyAfterAllPrinted == main = "exit" => (\A f \in Files : st[f] = "done") /\ {out[i] : i \in 1..Len(out)} = Prints
+ExitOnlyAfterAllPrinted == main = "exit" => (\A f \in Files : st[f] = "done") /\ {out[i] : i \in DOMAIN out} = Prints
 \* stdout is a sequence of whole blocks, one per file with a non-empty result
-BlocksIntact == Len(out) = Cardinality({out[i] : i \in 1..Len(out)}) /\ {out[i] : i \in 1..Len(out)} \subseteq Prints
+BlocksIntact == Len(out) = Cardinality({out[i] : i \in DOMAIN out}) /\ {out[i] : i \in DOMAIN out} \subseteq Prints
 Terminates == <>(main = "exit")
 =============================================================================
